@@ -9,12 +9,11 @@ import (
 )
 
 // Random well-formed schemas built as a schemadump.Schema tree.  mode:
-//   clean  – inside the hypotheses of the round-trip theorem (no construct the converter or the
-//            generator is known to lose)
-//   lossy  – additionally: interfaces implementing interfaces, repeatable directives, deprecated
-//            arguments / input fields, @specifiedBy, @oneOf, escapes / block strings in deprecation
-//            reasons, block-string defaults ending in a quote, directive/type name collisions,
-//            redeclared built-ins, non-root Mutation/Subscription objects, reason: null
+//   clean  – inside the hypotheses of the round-trip theorem; since their repair this includes interfaces
+//            implementing interfaces, repeatable directives, deprecated arguments / input fields,
+//            @specifiedBy, reason: null and directive/type name collisions
+//   lossy  – additionally one of: @oneOf, escapes / quotes in deprecation reasons, block-string defaults
+//            ending in a quote, redeclared built-ins, non-root Mutation/Subscription objects (1 in 6: any)
 //   malformed – one well-formedness rule broken (unresolved type, missing root, duplicate name …)
 type sgen struct {
 	r     *common.Rand
@@ -38,9 +37,16 @@ var allLocations = []string{"QUERY", "MUTATION", "SUBSCRIPTION", "FIELD", "FRAGM
 func (g *sgen) feat(n string) { g.features[n]++ }
 
 // on reports whether the lossy construct `what` may be used in this case
-func (g *sgen) on(what string) bool { return g.lossy && (g.only == "" || g.only == what) }
+// (constructs whose loss has been repaired are ordinary features now and appear in every mode)
+func (g *sgen) on(what string) bool {
+	if repaired[what] {
+		return g.r.Chance(1, 3)
+	}
+	return g.lossy && (g.only == "" || g.only == what)
+}
 
-var lossyKinds = []string{"iface", "repeatable", "ivdep", "specified", "oneof", "escapes", "null", "blockquote", "collision", "builtin", "rootname"}
+var repaired = map[string]bool{"iface": true, "repeatable": true, "ivdep": true, "specified": true, "null": true, "collision": true}
+var lossyKinds = []string{"oneof", "escapes", "blockquote", "builtin", "rootname"}
 
 func (g *sgen) wrap(base string, maxDepth int) *sd.Ty {
 	t := sd.Named(base)
@@ -288,7 +294,7 @@ func genSchema(r *common.Rand, lossy bool) (*sd.Schema, map[string]int) {
 		g.inputs = append(g.inputs, fmt.Sprintf("%sIn%d", pfx, i))
 	}
 	nIfaces := 1 + r.Pick(3)
-	if g.on("iface") && only == "iface" {
+	if r.Chance(1, 4) {
 		nIfaces = 2 + r.Pick(3) // room for chains of interfaces implementing interfaces
 	}
 	for i := 0; i < nIfaces; i++ {
@@ -577,7 +583,7 @@ func genSchema(r *common.Rand, lossy bool) (*sd.Schema, map[string]int) {
 	r.Shuffle(len(all), func(i, j int) { all[i], all[j] = all[j], all[i] })
 	s.Types = all
 	s.Directives = g.dirs
-	if g.on("null") && r.Chance(1, 2) {
+	if g.on("null") && r.Chance(1, 4) {
 		// reason: null panics the generator
 		for i := range s.Types {
 			if s.Types[i].Kind == "enum" {
